@@ -241,6 +241,62 @@ fn case(src: &mut Src, ctx: &mut Ctx) -> Result<(), Fail> {
     }
     let (lport, rport) = (bed.lport, bed.rport);
     let mk = |seq: u32, ack: Option<u32>, flags: u8, win: u16| Tcp::new(rport, lport, seq, ack, flags, win);
+    let max_payload_early = mtu - (if v6 { 40 } else { 20 }) - 20 - 12;
+
+    // ---- (1 in 4) an earlier connection on the SAME socket object, torn down by the peer while an
+    // out-of-order island was parked in the receive buffer: nothing of it - reassembly state,
+    // buffered octets, negotiated options - may survive into the connection under test
+    // (decided from bits of the payload seed so that saved tapes keep their draws)
+    if (stream_seed >> 11) & 3 == 0 && rx_cap >= 4 {
+        let b = (stream_seed >> 16) as usize;
+        let irs0 = irs.wrapping_add(0x0300_0000);
+        let iss0 = if listen {
+            bed.listen();
+            let mut syn = mk(irs0, None, SYN, 4096);
+            syn.opts = syn_opts.clone();
+            let out = bed.deliver(&syn)?;
+            match out.iter().find(|s| s.has(SYN) && s.has(ACK)) {
+                Some(sa) => {
+                    let iss0 = sa.seq;
+                    let _ = bed.deliver(&mk(irs0.wrapping_add(1), Some(iss0.wrapping_add(1)), 0, 4096))?;
+                    Some(iss0)
+                }
+                None => None,
+            }
+        } else {
+            bed.connect();
+            let out = bed.poll()?;
+            match out.iter().find(|s| s.has(SYN)) {
+                Some(sy) => {
+                    let iss0 = sy.seq;
+                    let mut sa = mk(irs0, Some(iss0.wrapping_add(1)), SYN, 4096);
+                    sa.opts = syn_opts.clone();
+                    let _ = bed.deliver(&sa)?;
+                    Some(iss0)
+                }
+                None => None,
+            }
+        };
+        if let Some(iss0) = iss0 {
+            if bed.sock().state() == tcp::State::Established {
+                let gap = 1 + b % (rx_cap / 2).max(1);
+                let len = 1 + (b >> 8) % (rx_cap - gap).min(64).max(1);
+                let mut island = mk(irs0.wrapping_add(1).wrapping_add(gap as u32), Some(iss0.wrapping_add(1)), 0, 4096);
+                island.payload = vec![0x5A; len.min(max_payload_early)];
+                let _ = bed.deliver(&island)?;
+                let _ = bed.deliver(&mk(irs0.wrapping_add(1), None, RST, 0))?;
+                if bed.sock().state() == tcp::State::Closed {
+                    ctx.label("earlier-connection-reset-with-island-parked");
+                } else {
+                    ctx.label("earlier-connection-not-closed");
+                    return Ok(());
+                }
+            } else {
+                bed.sock().abort();
+                let _ = bed.poll()?;
+            }
+        }
+    }
 
     // ---- handshake
     if listen {
